@@ -48,7 +48,7 @@ ASSUMPTIONS = [
     "codes 0x3CD-0x3CF, undefined user/escape codes and 'response to basic restart' 0x3A0|r<<1 are not); each "
     "recognised service is cross-checked by a table-built witness APDU that must decode to the named class",
     "wrong-service is only asserted for canonical codes (reserved code bits of the A_Restart family zero)",
-    "termination: every structure-aware decode (<=255 octets) runs under a line-step budget of 2000+20*len "
+    "termination: every structure-aware decode (<=255 octets) runs under a line-step budget of 3000+20*len "
     "xknx line/call events (settrace), maximum observed is recorded; the exhaustive and Hypothesis passes are "
     "not traced - for them termination is covered by the enumeration itself completing",
     "the cEMI mapping (UnsupportedAPCIService -> UnsupportedCEMIMessage, ConversionError -> CouldNotParseCEMI) is "
@@ -95,7 +95,7 @@ def traced_decode(raw: bytes, budget: int):
 
 
 def budget_for(n: int) -> int:
-    return 2000 + 20 * n
+    return 3000 + 20 * n
 
 
 def judge(ctx, raw: bytes, res) -> str:
@@ -204,7 +204,8 @@ def shard_structured(ctx, lo: int, hi: int) -> None:
         else:
             res = decode(raw)
         out = judge(ctx, raw, res)
-        ctx.case(raw, nontrivial(raw, out), cls=(f"gen:{label}", f"outcome:{out}"))
+        ctx.case(raw, nontrivial(raw, out), cls=(f"gen:{label}", f"outcome:{out}"),
+                 sample={"apdu": raw.hex(), "gen": label, "outcome": out} if label == "boundary" and code % 97 == 0 and len(raw) < 24 else None)
         if label in ("zeros", "boundary"):
             check_cemi(ctx, raw)
     ctx.notes[f"_max_steps:{lo}"] = str(max_steps)  # string: merged by key, reduced to the max in run()
@@ -225,7 +226,8 @@ def check_witnesses(ctx) -> None:
             w = T.witness(s, v)
             res = decode(w)
             got.append(type(res).__name__)
-            ctx.case(("witness", w), True, cls="witness", sample={"service": s.name, "apdu": w.hex(), "decoded": type(res).__name__})
+            ctx.case(("witness", w), True, cls="witness",
+                     sample={"service": s.name, "apdu": w.hex(), "decoded": type(res).__name__} if v and s.code % 5 == 0 else None)
             judge(ctx, w, res)
         if s.name not in got:
             ctx.fail(f"C04:no-witness-decodes:{s.name}", T.witness(s, 0), f"table-valid APDUs of {s.name} decode to {got}")
@@ -253,7 +255,7 @@ def run(ctx) -> None:
     ctx.exhaustive = True
     ctx.notes["exhaustive_part"] = "APDU lengths 0..2" + ("" if ctx.quick else " and 3 (16.8M)") + (
         "; length 3 strided 1/16 (every first-two-octet pair with 16 third octets)" if ctx.quick else "")
-    ctx.notes["step_budget"] = "2000 + 20*len line/call events in xknx.* frames"
+    ctx.notes["step_budget"] = "3000 + 20*len line/call events in xknx.* frames (>= 20x the maximum observed)"
     rng = random.Random(ctx.seed)
     for s, raw in list(G.valid_apdus(rng, 1))[:: max(1, len(T.SERVICES) // 5)][:6]:
         ctx.sample({"service": s.name, "valid_apdu": raw.hex()})
